@@ -78,7 +78,16 @@ type effect struct {
 
 // genPayload builds a structured service payload and returns the expected
 // effects keyed by request msg id (first effect per id wins).
+// c23PingIDs: ping ids of Ping calls in flight on the connection (set per case)
+var c23PingIDs []int64
+
 func genPayload(t *rapid.T, ids []int64, depth int, effects map[int64]effect, order *[]int64) ([]byte, string) {
+	pingID := func() int64 {
+		if len(c23PingIDs) > 0 && rapid.IntRange(0, 2).Draw(t, "useInflightPing") > 0 {
+			return c23PingIDs[rapid.IntRange(0, len(c23PingIDs)-1).Draw(t, "whichPing")]
+		}
+		return int64(rapid.Uint64().Draw(t, "pingID"))
+	}
 	pick := func() int64 {
 		if len(ids) > 0 && rapid.IntRange(0, 2).Draw(t, "usePending") > 0 {
 			return ids[rapid.IntRange(0, len(ids)-1).Draw(t, "which")]
@@ -93,7 +102,7 @@ func genPayload(t *rapid.T, ids []int64, depth int, effects map[int64]effect, or
 	}
 	kinds := []string{"result", "result-gzip", "rpcerror", "rpcerror-gzip", "pong-in-result", "pong", "ack", "badmsg", "newsession", "futuresalts", "unknown", "detailed", "empty-result"}
 	if depth > 0 {
-		kinds = append(kinds, "container", "container", "gzip")
+		kinds = append(kinds, "container", "container", "gzip", "repeated")
 	}
 	kind := rapid.SampledFrom(kinds).Draw(t, "kind")
 	switch kind {
@@ -117,12 +126,22 @@ func genPayload(t *rapid.T, ids []int64, depth int, effects map[int64]effect, or
 		note(id, effect{kind: "rpcerror", code: code, msg: msg})
 		return pbt.RPCResult(id, body), kind
 	case "pong-in-result":
-		return pbt.RPCResult(pick(), pbt.Pong(pick(), 5)), kind
+		return pbt.RPCResult(pick(), pbt.Pong(pick(), pingID())), kind
 	case "empty-result":
 		// rpc_result with no body: must be an error, not a completion
 		return pbt.RPCResult(pick(), nil), kind
 	case "pong":
-		return pbt.Pong(pick(), int64(rapid.Uint64().Draw(t, "pingID"))), kind
+		return pbt.Pong(pick(), pingID()), kind
+	case "repeated":
+		// the same message two or three times in one container (a server
+		// retransmission batched with the original): handled back to back
+		inner, k := genPayload(t, ids, depth-1, effects, order)
+		n := rapid.IntRange(2, 3).Draw(t, "copies")
+		var msgs []pbt.ContainerMsg
+		for i := 0; i < n; i++ {
+			msgs = append(msgs, pbt.ContainerMsg{MsgID: int64(i+1)<<32 | 1, SeqNo: 1, Body: inner})
+		}
+		return pbt.Container(msgs...), fmt.Sprintf("repeated%d[%s]", n, k)
 	case "ack":
 		return pbt.MsgsAck(pick(), pick()), kind
 	case "badmsg":
@@ -195,6 +214,7 @@ func TestC23(t *testing.T) {
 	rapid.Check(t, func(t *rapid.T) {
 		rnd, seed := pbt.DrawStream(t, "rnd")
 		npending := rapid.IntRange(0, 3).Draw(t, "pending")
+		withPing := rapid.Bool().Draw(t, "pingInFlight")
 		class := rapid.SampledFrom([]string{"generated", "generated", "corpus-mutated", "raw"}).Draw(t, "class")
 		var descr string
 		nontrivial := false
@@ -204,6 +224,19 @@ func TestC23(t *testing.T) {
 			defer f.stop(t)
 			e := &c23env{f: f}
 			e.start(t, npending)
+			c23PingIDs = nil
+			if withPing {
+				// a Ping call in flight: pongs may name its id
+				pctx, pcancel := context.WithCancel(context.Background())
+				defer pcancel()
+				go func() { _ = f.conn.Ping(pctx) }()
+				synctest.Wait()
+				for _, m := range f.peer.Msgs() {
+					if id, ok := pbt.PingID(m.Body); ok && m.TypeID == pbt.IDPing {
+						c23PingIDs = append(c23PingIDs, id)
+					}
+				}
+			}
 			var ids []int64
 			for _, pc := range e.calls {
 				ids = append(ids, pc.msgID)
